@@ -457,22 +457,26 @@ theorem parse_sample :
   simp [Json.parse, Json.parseValue, Json.parseMembers, Json.parseStr, Json.skipWs, Json.isWs,
     Fields.put]
 
-/-- the hypotheses of `C12_json_merges` are met by the model: a row that already has a field `a`
-and whose raw line is `{"b":true}` is kept, and the output has both `a` and `b` -/
+/-- a row that already has a field `a` and whose raw line is `{"b":true}` -/
+def sampleRow : Record :=
+  { data := [("a", .int 1)], raw := String.ofList ['{', '"', 'b', '"', ':', 't', 'r', 'u', 'e', '}'] }
+
+/-- the hypotheses of `C12_json_merges` are met by the model: `sampleRow` is kept, and the output
+has both the earlier field `a` and the member `b` -/
 example (ext : Ext) :
-    ∃ r r' inp kvs, Fields.get "a" r.data = some (.int 1) ∧ getInput ext r none = .ok inp
+    ∃ r' inp kvs, Fields.get "a" sampleRow.data = some (.int 1)
+      ∧ getInput ext sampleRow none = .ok inp
       ∧ Json.parse inp = some (.obj kvs)
-      ∧ applyStateless ext (.json none) r = .ok (some r')
+      ∧ applyStateless ext (.json none) sampleRow = .ok (some r')
       ∧ Fields.get "a" r'.data = some (.int 1) ∧ Fields.get "b" r'.data = some (.bool true) := by
-  let r : Record := { data := [("a", .int 1)],
-                      raw := String.ofList ['{', '"', 'b', '"', ':', 't', 'r', 'u', 'e', '}'] }
-  have hi : getInput ext r none = .ok r.raw := rfl
-  have ha : Fields.get "a" r.data = some (.int 1) := by simp [r, Fields.get]
-  have h := json_result ext none r r.raw hi
-  rw [parse_sample] at h
-  simp only [] at h
-  obtain ⟨_, hm⟩ := C12_json_merges ext none r _ r.raw _ hi parse_sample h
-  refine ⟨r, _, r.raw, _, ha, hi, parse_sample, h, ?_, ?_⟩
+  have hi : getInput ext sampleRow none = .ok sampleRow.raw := by simp [getInput]
+  have hp : Json.parse sampleRow.raw = some (.obj [("b", .bool true)]) := by
+    simp only [sampleRow]; exact parse_sample
+  have ha : Fields.get "a" sampleRow.data = some (.int 1) := by simp [sampleRow, Fields.get]
+  have h := json_result ext none sampleRow sampleRow.raw hi
+  simp only [hp] at h
+  obtain ⟨_, hm⟩ := C12_json_merges ext none sampleRow _ sampleRow.raw _ hi hp h
+  refine ⟨_, sampleRow.raw, _, ha, hi, hp, h, ?_, ?_⟩
   · rw [hm]; simp [lastWrite, ha]
   · rw [hm]; simp [lastWrite]
 
@@ -481,9 +485,8 @@ example (ext : Ext) (r : Record) (inp : String) (toks : List (List Char))
     (hi : getInput ext r none = .ok inp) (hs : Split.split inp.toList ",".toList = some toks) :
     ∃ r', applyStateless ext (.split "," none none) r = .ok (some r')
       ∧ Frame ["_split"] r r' := by
-  refine ⟨{ r with data := Fields.put "_split"
-      (Value.arr (toks.map (fun t => Value.fromString (String.ofList t)))) r.data }, ?_,
-    frame_of_put _ _ r⟩
-  simp [applyStateless, bind, Outcome.bind, hi, hs, Option.orElse]
+  refine ⟨_, ?_, frame_of_put "_split"
+    (Value.arr (toks.map (fun t => Value.fromString (String.ofList t)))) r⟩
+  simp only [applyStateless, bind, Outcome.bind, hi, hs, Option.orElse, Outcome.pure_eq]
 
 end Ag.C12
